@@ -423,7 +423,7 @@ func coinbasePredicate(outs []*ctypes.Output, total *big.Int, p *config.Configur
 
 func TestCoinbaseV2(t *testing.T) {
 	rapid.Check(t, func(rt *rapid.T) {
-		pow := rapid.Bool().Draw(rt, "pow-mode")
+		pow := rapid.IntRange(0, 3).Draw(rt, "pow-mode") == 0
 		n, err := node.New(node.Opts{Tweak: func(p *config.Configuration) {
 			// coinbase output 0 goes to the CR assets address from the start, as on every
 			// network by the time DPoS v2 is active
@@ -460,7 +460,7 @@ func TestCoinbaseV2(t *testing.T) {
 		if err != nil {
 			rt.Fatalf("harness: replay: %v", err)
 		}
-		nsteps := rapid.IntRange(1, 5).Draw(rt, "nsteps")
+		nsteps := rapid.IntRange(1, 6).Draw(rt, "nsteps")
 		for k := 0; k < nsteps; k++ {
 			height := tip.Height + 1
 			if height <= n.Arbiters.GetDPoSV2ActiveHeight()+1 {
